@@ -6,5 +6,7 @@ CONSTANTS
   MinZero = TRUE
   KEdge = 1
   KOut = 3
+  HasRit = FALSE
+  KRit = 0
   Variant = "repaired"
 CHECK_DEADLOCK FALSE
